@@ -314,3 +314,6 @@ package redisemu
 //@ ensures [C04,C05] others: forall q string :: q != keyName ==> ds.data.vdom[q] == old(ds.data.vdom[q]) && ds.data.vval[q] == old(ds.data.vval[q])
 //@ ensures mut: mutated && bumped
 //@ ensures dirty: ds.data.dirty
+// the key objects that existed before are left as they were (a new object replaces the old one in the table)
+//@ ensures keys.kept: forall k *storeKey :: asref(k) < old(alloc()) ==> k.flags == old(k.flags) && k.payload == old(k.payload) && k.expiresAt == old(k.expiresAt) && k.id == old(k.id)
+//@ ensures fresh: asref(result) >= old(alloc())
